@@ -254,7 +254,7 @@ func runCheck(prop, tier string) int {
 			}
 		}
 		for _, w := range pc.Witness {
-			if !reached[w] {
+			if !reached[w] && !job.NoNative {
 				vacuous = append(vacuous, job.Name+":"+w)
 			}
 		}
